@@ -1,1 +1,126 @@
+(* C20 — property theorems only.
+   "Every flag value the help text documents as valid is accepted, every accepted value is safe to
+   embed verbatim in the generated NGINX configuration or in Kubernetes object names, and conflicting
+   settings are rejected before anything is started."
+   Quantifiers: all byte strings, all ports, all combinations of flags.  [repaired] is the tree with
+   the D23 fix (strconv.ParseInt(port, 10, 32)); [as_found] is the tree as it was (bit size 16).
+   The specifications (Spec.v) are independent of the model: names as dot-separated labels, addresses
+   as dotted quads / colon groups, ports as the decimal numerals [dec n] of the standard library. *)
+From Coq Require Import String Ascii NArith ZArith Bool List.
 From NGF Require Import C20.Model C20.Spec C20.Proofs.
+Import ListNotations.
+
+(* ---------------------------------------------------------------- documented => accepted *)
+
+(* <host>:<port> for every DNS-1123 name or dotted-quad IPv4 address and EVERY port 1..65535 is
+   accepted by both endpoint validators.
+   _partial: the bracketed IPv6 form "[v6]:port" (Spec.doc_endpoint_v6) is not proved for all
+   addresses; it is checked by evaluation on the listed forms (Proofs.ex_ipv6) and, on every run, by the
+   oracle Spec.ipv6_ok against the real net.ParseIP on generated addresses. *)
+Theorem C20_documented_endpoint_accepted_partial :
+  forall h n, (subdomain_ok h = true \/ ipv4_ok h = true) -> (1 <= n <= 65535)%N ->
+  validate_endpoint repaired (h ++ c_colon :: dec n) = true /\
+  validate_endpoint_optional_port repaired (h ++ c_colon :: dec n) = true.
+Proof. exact documented_endpoint_accepted. Qed.
+
+(* the same for the oracle's decidable reading of "documented endpoint" (any string) *)
+Theorem C20_documented_endpoint_string_accepted_partial :
+  forall s, doc_endpoint_plain s = true -> validate_endpoint repaired s = true.
+Proof. exact doc_endpoint_plain_accepted. Qed.
+
+(* the port is optional for --usage-report-endpoint / --usage-report-resolver *)
+Theorem C20_bare_host_accepted :
+  forall v s, (subdomain_ok s = true \/ ipv4_ok s = true) -> validate_endpoint_optional_port v s = true.
+Proof. exact bare_host_accepted_opt. Qed.
+
+(* every dotted quad is an accepted IP address *)
+Theorem C20_ipv4_accepted : forall s, ipv4_ok s = true -> validate_ip s = true.
+Proof. exact ipv4_ok_validate. Qed.
+
+(* resource names, namespaces and NAMESPACE/NAME: accepted EXACTLY when legal (DNS-1123 subdomain /
+   label), so every legal name is accepted and every accepted name is a legal object name *)
+Theorem C20_resource_name_exact : forall s, validate_resource_name s = subdomain_ok s.
+Proof. exact resource_name_exact. Qed.
+
+Theorem C20_namespace_name_exact : forall s, validate_namespace_name s = namespace_ok s.
+Proof. exact namespace_name_exact. Qed.
+
+Theorem C20_namespaced_name_exact : forall s, parse_namespaced_resource_name s = doc_nsname s.
+Proof. exact namespaced_name_exact. Qed.
+
+(* D23: the tree as found refuses a documented endpoint ... *)
+Theorem C20_D23_as_found_refuted :
+  exists s, doc_endpoint s = true /\ validate_endpoint as_found s = false /\
+            validate_endpoint_optional_port as_found s = false.
+Proof. exists (lit "example.com:32768"). destruct D23_witness as (A & B & C & _). auto. Qed.
+
+(* ... indeed every endpoint whose port is 32768..65535 *)
+Theorem C20_D23_as_found_refuses_all_high_ports :
+  forall h n, has c_colon h = false -> has c_lbr h = false -> has c_rbr h = false ->
+  (32768 <= n <= 65535)%N -> validate_endpoint as_found (h ++ c_colon :: dec n) = false.
+Proof. exact as_found_refuses_high_ports. Qed.
+
+(* ---------------------------------------------------------------- accepted => safe *)
+
+(* an accepted endpoint is one bare NGINX token (no white space, ; { } quotes # $ backslash, no
+   control or non-ASCII byte), consists of host/address/port bytes only, and its port denotes a
+   number in 1..65535 — whatever the variant *)
+Theorem C20_accepted_endpoint_safe :
+  forall v s, validate_endpoint v s = true -> endpoint_sound true s = true.
+Proof. exact validate_endpoint_sound. Qed.
+
+Theorem C20_accepted_optional_port_endpoint_safe :
+  forall v s, validate_endpoint_optional_port v s = true -> endpoint_sound false s = true.
+Proof. exact validate_endpoint_optional_port_sound. Qed.
+
+Theorem C20_accepted_names_safe :
+  forall s, (validate_resource_name s = true -> safe_token s = true) /\
+            (validate_namespace_name s = true -> safe_token s = true) /\
+            (validate_ip s = true -> safe_token s = true).
+Proof.
+  intro s. split; [|split].
+  - intro H. exact (proj2 (resource_name_safe _ H)).
+  - intro H. exact (proj2 (namespace_name_safe _ H)).
+  - exact (ip_safe s).
+Qed.
+
+(* an accepted controller name is gateway.nginx.org/PATH with PATH over the Gateway API path bytes *)
+Theorem C20_accepted_controller_name_sound :
+  forall s, validate_gateway_controller_name s = true -> doc_ctlr s = true.
+Proof. exact ctlr_name_sound. Qed.
+
+(* safe to embed verbatim: whatever accepted endpoint and resolver are given, the generated mgmt.conf
+   is read by the NGINX tokeniser as exactly the intended directives, each value inside one argument *)
+Theorem C20_mgmt_conf_tokens :
+  forall v e r skip ca client,
+  (e = [] \/ validate_endpoint_optional_port v e = true) ->
+  (r = [] \/ validate_endpoint_optional_port v r = true) ->
+  lex (render_mgmt {| m_endpoint := e; m_resolver := r; m_skip_verify := skip; m_ca := ca; m_client := client |}) =
+  Some (mgmt_tokens e r skip ca client).
+Proof. exact mgmt_conf_tokens. Qed.
+
+(* ---------------------------------------------------------------- conflicts are rejected before the start *)
+
+(* whatever the command line, the manager is started only with distinct metrics and health ports in
+   [1024, 65535], a controller name of the documented form, legal object names, and safe endpoints *)
+Theorem C20_conflicts_rejected_before_start :
+  forall v a c, run_static v a = Started c ->
+  s_metrics_port c <> s_health_port c /\
+  (1024 <= s_metrics_port c <= 65535)%Z /\ (1024 <= s_health_port c <= 65535)%Z /\
+  doc_ctlr (s_ctlr c) = true /\
+  (subdomain_ok (s_class c) = true /\ safe_token (s_class c) = true) /\
+  match s_gateway c with Some (ns, n) => namespace_ok ns = true /\ subdomain_ok n = true | None => True end /\
+  name_or_empty (s_config c) /\ name_or_empty (s_service c) /\
+  (subdomain_ok (s_lock c) = true /\ safe_token (s_lock c) = true) /\
+  (subdomain_ok (s_secret c) = true /\ safe_token (s_secret c) = true) /\
+  name_or_empty (s_client_secret c) /\ name_or_empty (s_ca_secret c) /\
+  (s_endpoint c = [] \/ endpoint_sound false (s_endpoint c) = true) /\
+  (s_resolver c = [] \/ endpoint_sound false (s_resolver c) = true) /\
+  (s_telemetry_endpoint c = [] \/ endpoint_sound true (s_telemetry_endpoint c) = true).
+Proof. exact started_is_valid. Qed.
+
+Theorem C20_equal_ports_never_start :
+  forall v a m h p, a_metrics_port a = Some m -> a_health_port a = Some h ->
+  port_flag_set m = Some p -> port_flag_set h = Some p ->
+  forall c, run_static v a <> Started c.
+Proof. exact equal_ports_refused. Qed.
